@@ -80,7 +80,69 @@ func runHistories(c *ctx, which string) error {
 			return err
 		}
 	}
+	// C12: every legal state over a small alphabet rich in prefix relations x every transaction over
+	// it (each name created, deleted or left alone), through Add: the validator on all combinations
+	var scripts [][]hop
+	if which == "c12" {
+		alpha := []string{"a", "a/b", "a/c", "b"}
+		if c.thorough() {
+			alpha = []string{"a", "a/b", "a/b/c", "a/c", "ab", "b"}
+		}
+		legal := func(set []string) bool {
+			for _, x := range set {
+				for _, y := range set {
+					if x != y && strings.HasPrefix(y, x+"/") {
+						return false
+					}
+				}
+			}
+			return true
+		}
+		for m := 0; m < 1<<uint(len(alpha)); m++ {
+			var state []string
+			for k, nm := range alpha {
+				if m>>uint(k)&1 == 1 {
+					state = append(state, nm)
+				}
+			}
+			if !legal(state) {
+				continue
+			}
+			pw := 1
+			for range alpha {
+				pw *= 3
+			}
+			for t := 1; t < pw; t++ {
+				var setup, tx hop
+				setup.kind, tx.kind = "A", "A"
+				for _, nm := range state {
+					setup.refs = append(setup.refs, reftable.RefRecord{RefName: nm, Value: []byte{1}})
+				}
+				x := t
+				for _, nm := range alpha {
+					switch x % 3 {
+					case 1:
+						tx.refs = append(tx.refs, reftable.RefRecord{RefName: nm, Value: []byte{2}})
+					case 2:
+						tx.refs = append(tx.refs, reftable.RefRecord{RefName: nm})
+					}
+					x /= 3
+				}
+				if len(state) == 0 {
+					scripts = append(scripts, []hop{tx})
+				} else {
+					scripts = append(scripts, []hop{setup, tx})
+				}
+			}
+		}
+		n += len(scripts)
+		hist["exhaustive-state-x-transaction-histories"] = len(scripts)
+	}
 	for i := 0; i < n; i++ {
+		var script []hop
+		if i < len(scripts) {
+			script = scripts[i]
+		}
 		var cfg tcfg
 		cfg.SHA256 = c.rng.Intn(4) == 0
 		cfg.BlockSize = uint32(256 + c.rng.Intn(300))
@@ -143,6 +205,10 @@ func runHistories(c *ctx, which string) error {
 			if skipNameCheck {
 				pool = append(pool, "a", "a/b")
 			}
+			if which == "c15" && c.rng.Intn(3) == 0 {
+				// a name that fits the writing handle's blocks but not those of a handle with small blocks
+				pool = append(pool, "refs/heads/"+strings.Repeat("L", 120+c.rng.Intn(60)))
+			}
 		}
 		var oids [][]byte
 		for j := 0; j < 3; j++ {
@@ -169,11 +235,24 @@ func runHistories(c *ctx, which string) error {
 			u uint64
 		}
 		var liveLogs []lkey
+		if script != nil {
+			nops = len(script)
+		}
 		for j := 0; j < nops; j++ {
 			var o hop
 			ntab := len(readList(dir))
 			r := c.rng.Intn(10)
 			switch {
+			case script != nil:
+				o = script[j]
+				ui := st.NextUpdateIndex()
+				o.refs = append([]reftable.RefRecord{}, o.refs...)
+				for k := range o.refs {
+					o.refs[k].UpdateIndex = ui
+					if o.refs[k].Value != nil {
+						o.refs[k].Value = oids[int(o.refs[k].Value[0])%3]
+					}
+				}
 			case which == "c13" && j == nops-1 || (which == "c13" && r == 0):
 				o.kind = "CE"
 				lim := func() uint64 {
@@ -451,12 +530,38 @@ func runHistories(c *ctx, which string) error {
 			// the C implementation opens the directory the Go stack wrote and scans it
 			cview := ctwinDrv.ask(fmt.Sprintf("SR %s %d", dir, b2i(cfg.SHA256)))
 			st.Close()
+			// then a C handle with options of its own (block size, padding, message option, object index)
+			// compacts the whole directory: whatever it answers, the directory must still hold the same
+			// refs and reflog, for the C reader and for a fresh Go handle
+			cc := cfg
+			cc.BlockSize = []uint32{0, 128, 160, 256, 1024, cfg.BlockSize}[c.rng.Intn(6)]
+			cc.Unaligned = c.rng.Intn(4) == 0
+			cc.Exact = c.rng.Intn(2) == 0
+			cc.SkipIdx = c.rng.Intn(3) == 0
+			ccStatus := "cc=ok"
+			if ans := strings.Split(ctwinDrv.ask(fmt.Sprintf("SC %s %s", dir, cc)), "#"); len(ans) != 3 {
+				ccStatus = "cc=no-answer(" + strings.Join(ans, "#") + ")"
+			} else if ans[0] != cview {
+				ccStatus = "cc=C-handle-with-other-options-reads-another-view"
+			} else if ans[2] != cview {
+				ccStatus = fmt.Sprintf("cc=view-changed-by-C-compaction(%s,block-size=%d,exact=%v)", ans[1], cc.BlockSize, cc.Exact)
+			} else if st2, err := reftable.NewStack(dir, gocfg); err != nil {
+				ccStatus = "cc=Go-cannot-open-after-C-compaction"
+			} else {
+				o2 := strings.Split(observe(st2, dir, "ok"), "^")
+				o1 := strings.Split(cview, "|")
+				if len(o2) != 4 || len(o1) != 3 || o2[2] != o1[1] || o2[3] != o1[2] {
+					ccStatus = fmt.Sprintf("cc=Go-reads-another-view-after-C-compaction(%s,block-size=%d,exact=%v)", ans[1], cc.BlockSize, cc.Exact)
+				}
+				st2.Close()
+			}
+			hist["c-compactions:"+strings.SplitN(ccStatus, "(", 2)[0]]++
 			os.RemoveAll(dir)
 			last := ""
 			if len(obs) > 0 {
 				last = obs[len(obs)-1]
 			}
-			c.emit("cstack_gc", fmt.Sprintf("%s|%d|%s", cfg, b2i(!skipNameCheck), strings.Join(ops, "!")), last+"#"+cview)
+			c.emit("cstack_gc", fmt.Sprintf("%s|%d|%s", cfg, b2i(!skipNameCheck), strings.Join(ops, "!")), last+"#"+cview+"#"+ccStatus)
 			continue
 		}
 		st.Close()
